@@ -7,7 +7,7 @@ MCReps == 1..NReps
 MCActors == 1..NReps
 MCActorOf == [r \in MCReps |-> r]
 MCValsPos == {1, 2}
-MCValsInt == {-2, -1, 1, 2}
+MCValsInt == {-1, 0, 1, 2}     \* includes the default value 0 (an explicit write of the default must behave like any other write)
 MCSteps == {0, 2}
 MCMarkers == 1..3
 
